@@ -30,6 +30,24 @@ func (f *fakeImporter) Import(path string) (*types.Package, error) {
 	}
 	name := path[strings.LastIndex(path, "/")+1:]
 	p := types.NewPackage(path, name)
+	if path == "strings" {
+		// the four functions GoLite interprets (Model/GoLite.v prim_eval): their signatures, so that results are typed
+		str := types.Typ[types.String]
+		strs := types.NewSlice(str)
+		decl := func(fn string, res types.Type, params ...types.Type) {
+			var ps []*types.Var
+			for _, t := range params {
+				ps = append(ps, types.NewVar(token.NoPos, p, "", t))
+			}
+			sig := types.NewSignatureType(nil, nil, nil, types.NewTuple(ps...),
+				types.NewTuple(types.NewVar(token.NoPos, p, "", res)), false)
+			p.Scope().Insert(types.NewFunc(token.NoPos, p, fn, sig))
+		}
+		decl("ToLower", str, str)
+		decl("TrimSpace", str, str)
+		decl("Split", strs, str, str)
+		decl("Join", str, strs, str)
+	}
 	p.MarkComplete()
 	f.pkgs[path] = p
 	return p, nil
@@ -560,9 +578,10 @@ func main() {
 		files = append(files, f)
 	}
 	info = &types.Info{
-		Types: map[ast.Expr]types.TypeAndValue{},
-		Defs:  map[*ast.Ident]types.Object{},
-		Uses:  map[*ast.Ident]types.Object{},
+		Types:      map[ast.Expr]types.TypeAndValue{},
+		Defs:       map[*ast.Ident]types.Object{},
+		Uses:       map[*ast.Ident]types.Object{},
+		Selections: map[*ast.SelectorExpr]*types.Selection{},
 	}
 	conf := types.Config{
 		Importer: &fakeImporter{pkgs: map[string]*types.Package{}},
@@ -1022,12 +1041,23 @@ var goliteNames = []string{
 	"prioritizedRoundRobinRemote.resetLocked", "prioritizedRoundRobinRemote.Reset",
 	"prioritizedRoundRobinRemote.GetAddress", "prioritizedRoundRobinRemote.Peek",
 	"callContainer.nextSeqid",
+	"NetworkInstrumenter.IncrementSize", "NetworkInstrumenter.EndCall",
+	"NetworkInstrumenter.RecordAndFinish", "NetworkInstrumenter.Finish",
+	"prioritizedRoundRobinRemote.String", "NewPrioritizedRoundRobinRemote", "ParsePrioritizedRoundRobinRemote",
 }
 
+// callees interpreted by Model/GoLite.v (prim_eval): package path + "." + name -> number of arguments
+var golitePrims = map[string]int{"strings.ToLower": 1, "strings.TrimSpace": 1, "strings.Split": 2, "strings.Join": 2}
+
+// callees treated as opaque pure functions (package path + "." + name): the call evaluates to a fixed unknown
+// value (EOpaque "<source text>").  Only functions that cannot touch the translated object's fields may be here.
+var goliteOpaque = map[string]bool{"time.Since": true, "time.Now": true}
+
 type goliteCtx struct {
-	recv     string          // receiver identifier of the function being translated
-	recvType string          // its type name
-	dupDefs  map[string]bool // local names declared more than once in the body (scoping would matter)
+	recv     string                  // receiver identifier of the function being translated
+	recvType string                  // its type name
+	dupDefs  map[string]bool         // unused since names are per object
+	names    map[types.Object]string // flat-frame name of every local object: "x", and "x'2" for a second x
 	set      map[string]*ast.FuncDecl
 }
 
@@ -1102,18 +1132,251 @@ func (c *goliteCtx) place(e ast.Expr) (string, bool) {
 		if !ok || v.IsField() || v.Parent() == pkg.Scope() || c.dupDefs[x.Name] {
 			return "", false
 		}
-		return x.Name, true
+		if n, ok := c.names[obj]; ok {
+			return n, true
+		}
+		return "", false
 	case *ast.SelectorExpr:
 		id, ok := x.X.(*ast.Ident)
 		if !ok || id.Name != c.recv {
 			return "", false
 		}
 		if v, ok := info.Uses[x.Sel].(*types.Var); ok && v.IsField() {
-			return c.recv + "." + x.Sel.Name, true
+			if p, ok := selectionPath(x); ok {
+				return c.recv + "." + p, true
+			}
 		}
 		return "", false
 	}
 	return "", false
+}
+
+// the full dotted field path of a field selection, embedded fields spelled out (r.Size -> InstrumentationRecord.Size)
+func selectionPath(x *ast.SelectorExpr) (string, bool) {
+	sel := info.Selections[x]
+	if sel == nil || sel.Kind() != types.FieldVal {
+		return "", false
+	}
+	t := sel.Recv()
+	var names []string
+	for _, i := range sel.Index() {
+		if pt, ok := t.Underlying().(*types.Pointer); ok {
+			t = pt.Elem()
+		}
+		st, ok := t.Underlying().(*types.Struct)
+		if !ok || i >= st.NumFields() {
+			return "", false
+		}
+		names = append(names, st.Field(i).Name())
+		t = st.Field(i).Type()
+	}
+	return strings.Join(names, "."), len(names) > 0
+}
+
+// a heap place: the receiver itself ("r") or a field path of it ("r.f.g")
+func (c *goliteCtx) heapPlace(e ast.Expr) (string, bool) {
+	if pe, ok := e.(*ast.ParenExpr); ok {
+		return c.heapPlace(pe.X)
+	}
+	if id, ok := e.(*ast.Ident); ok && id.Name == c.recv && c.recv != "" {
+		return c.recv, true
+	}
+	if p, ok := c.place(e); ok && strings.HasPrefix(p, c.recv+".") {
+		return p, true
+	}
+	return "", false
+}
+
+func isNilExpr(e ast.Expr) bool {
+	tv, ok := info.Types[e]
+	return ok && tv.IsNil()
+}
+
+func isPointerType(e ast.Expr) bool {
+	tv, ok := info.Types[e]
+	if !ok || tv.Type == nil {
+		return false
+	}
+	_, ok = tv.Type.Underlying().(*types.Pointer)
+	return ok
+}
+
+// pkg.Name(...) with pkg an imported package: its path and the name
+func pkgCallee(call *ast.CallExpr) (string, string, bool) {
+	sel, ok := call.Fun.(*ast.SelectorExpr)
+	if !ok {
+		return "", "", false
+	}
+	id, ok := sel.X.(*ast.Ident)
+	if !ok {
+		return "", "", false
+	}
+	pn, ok := info.Uses[id].(*types.PkgName)
+	if !ok {
+		return "", "", false
+	}
+	return pn.Imported().Path(), sel.Sel.Name, true
+}
+
+func (c *goliteCtx) exprList(l []ast.Expr) string {
+	parts := make([]string, 0, len(l))
+	for _, a := range l {
+		parts = append(parts, c.expr(a))
+	}
+	return "[" + strings.Join(parts, "; ") + "]"
+}
+
+// zero value of a type, as an expression
+func glZero(t types.Type) string {
+	switch u := t.Underlying().(type) {
+	case *types.Slice:
+		return "(EMake " + coqString(types.TypeString(t, nil)) + " (EInt 0))"
+	case *types.Pointer, *types.Interface:
+		return "ENil"
+	case *types.Basic:
+		switch {
+		case u.Info()&types.IsInteger != 0:
+			return "(EInt 0)"
+		case u.Info()&types.IsBoolean != 0:
+			return "(EBool false)"
+		case u.Info()&types.IsString != 0:
+			return "(EStr []%N)"
+		}
+	}
+	return "(EOpaque " + coqString("zero value of "+types.TypeString(t, nil)) + ")"
+}
+
+func (c *goliteCtx) newObject(cl *ast.CompositeLit) (string, bool) {
+	tv, ok := info.Types[cl]
+	if !ok || tv.Type == nil {
+		return "", false
+	}
+	st, ok := tv.Type.Underlying().(*types.Struct)
+	if !ok {
+		return "", false
+	}
+	given := map[string]ast.Expr{}
+	for _, el := range cl.Elts {
+		kv, ok := el.(*ast.KeyValueExpr)
+		if !ok {
+			return "", false
+		}
+		k, ok := kv.Key.(*ast.Ident)
+		if !ok {
+			return "", false
+		}
+		given[k.Name] = kv.Value
+	}
+	var fs []string
+	for i := 0; i < st.NumFields(); i++ {
+		f := st.Field(i)
+		if _, given := given[f.Name()]; !given && f.Type() == types.Typ[types.Invalid] {
+			// a field whose type the lenient type check cannot resolve (the embedded sync.Mutex: mutexes are
+			// modelled by the held-set, not by heap entries) is not materialised; touching it is PUnknownVar
+			continue
+		}
+		v := glZero(f.Type())
+		if e, ok := given[f.Name()]; ok {
+			v = c.expr(e)
+			delete(given, f.Name())
+		}
+		fs = append(fs, "("+coqString(f.Name())+", "+v+")")
+	}
+	if len(given) != 0 {
+		return "", false
+	}
+	return "(ENew [" + strings.Join(fs, "; ") + "])", true
+}
+
+// x.m(args) with x a LOCAL variable holding a fresh object (pointer to a struct type whose method m is translated)
+func (c *goliteCtx) localMethodCall(call *ast.CallExpr) (string, bool) {
+	sel, ok := call.Fun.(*ast.SelectorExpr)
+	if !ok || call.Ellipsis.IsValid() {
+		return "", false
+	}
+	id, ok := sel.X.(*ast.Ident)
+	if !ok || id.Name == c.recv {
+		return "", false
+	}
+	p, ok := c.place(id)
+	if !ok {
+		return "", false
+	}
+	tv, ok := info.Types[id]
+	if !ok || tv.Type == nil {
+		return "", false
+	}
+	pt, ok := tv.Type.Underlying().(*types.Pointer)
+	if !ok {
+		return "", false
+	}
+	named, ok := pt.Elem().(*types.Named)
+	if !ok {
+		return "", false
+	}
+	full := named.Obj().Name() + "." + sel.Sel.Name
+	fd, ok := c.set[full]
+	if !ok || goliteRecv(fd) == "" {
+		return "", false
+	}
+	ps, ok := goliteParams(fd)
+	if !ok || len(ps) != len(call.Args) {
+		return "", false
+	}
+	return "SCallOn " + coqString(p) + " " + coqString(full) + " " + c.exprList(call.Args), true
+}
+
+// r.m(args) with m another translated method of the same receiver type, same receiver name, matching arity;
+// f(args) with f a translated plain function
+func (c *goliteCtx) methodCall(call *ast.CallExpr) (string, string, bool) {
+	if id, ok := call.Fun.(*ast.Ident); ok && !call.Ellipsis.IsValid() {
+		if fn, ok := info.Uses[id].(*types.Func); ok && fn.Parent() == pkg.Scope() {
+			if fd, ok := c.set[id.Name]; ok && fd.Recv == nil {
+				if ps, ok := goliteParams(fd); ok && len(ps) == len(call.Args) {
+					return id.Name, c.exprList(call.Args), true
+				}
+			}
+		}
+		return "", "", false
+	}
+	sel, ok := call.Fun.(*ast.SelectorExpr)
+	if !ok || call.Ellipsis.IsValid() || c.recv == "" {
+		return "", "", false
+	}
+	id, ok := sel.X.(*ast.Ident)
+	if !ok || id.Name != c.recv {
+		return "", "", false
+	}
+	full := c.recvType + "." + sel.Sel.Name
+	fd, ok := c.set[full]
+	if !ok || goliteRecv(fd) != c.recv {
+		return "", "", false
+	}
+	ps, ok := goliteParams(fd)
+	if !ok || len(ps) != len(call.Args) {
+		return "", "", false
+	}
+	return full, c.exprList(call.Args), true
+}
+
+// parameter names: all named, none blank, not variadic
+func goliteParams(fd *ast.FuncDecl) ([]string, bool) {
+	var ps []string
+	if fd.Type.Params == nil {
+		return ps, true
+	}
+	for _, f := range fd.Type.Params.List {
+		if _, variadic := f.Type.(*ast.Ellipsis); variadic || len(f.Names) == 0 {
+			return nil, false
+		}
+		for _, n := range f.Names {
+			if n.Name == "_" {
+				return nil, false
+			}
+			ps = append(ps, n.Name)
+		}
+	}
+	return ps, true
 }
 
 // math/rand.Perm(n)
@@ -1144,9 +1407,46 @@ func (c *goliteCtx) expr(e ast.Expr) string {
 	if tv, ok := info.Types[e]; ok && tv.Value != nil && tv.Value.Kind() == constant.Int {
 		return "(EInt " + coqZ(tv.Value.ExactString()) + ")"
 	}
+	if tv, ok := info.Types[e]; ok && tv.Value != nil && tv.Value.Kind() == constant.Bool {
+		if constant.BoolVal(tv.Value) {
+			return "(EBool true)"
+		}
+		return "(EBool false)"
+	}
+	if isNilExpr(e) {
+		return "ENil"
+	}
+	if tv, ok := info.Types[e]; ok && tv.Value != nil && tv.Value.Kind() == constant.String {
+		return "(EStr " + coqBytes(constant.StringVal(tv.Value)) + ")"
+	}
 	switch x := e.(type) {
 	case *ast.ParenExpr:
 		return c.expr(x.X)
+	case *ast.UnaryExpr:
+		if bi, ok := basicInfo(x.X); ok && x.Op == token.NOT && bi&types.IsBoolean != 0 {
+			return "(ENot " + c.expr(x.X) + ")"
+		}
+		// &T{f: e, ...}: a fresh object, every field listed (zero values for the ones not given)
+		if cl, ok := x.X.(*ast.CompositeLit); ok && x.Op == token.AND {
+			if s, ok := c.newObject(cl); ok {
+				return s
+			}
+		}
+	case *ast.StarExpr:
+		// *p with p a heap place pointing to a struct: the struct's value now, field by field
+		if p, ok := c.heapPlace(x.X); ok {
+			if tv, ok := info.Types[x.X]; ok && tv.Type != nil {
+				if pt, ok := tv.Type.Underlying().(*types.Pointer); ok {
+					if st, ok := pt.Elem().Underlying().(*types.Struct); ok {
+						var fs []string
+						for i := 0; i < st.NumFields(); i++ {
+							fs = append(fs, coqString(st.Field(i).Name()))
+						}
+						return "(EDeref " + coqString(p) + " [" + strings.Join(fs, "; ") + "])"
+					}
+				}
+			}
+		}
 	case *ast.Ident, *ast.SelectorExpr:
 		if p, ok := c.place(e); ok {
 			return "(EVar " + coqString(p) + ")"
@@ -1168,6 +1468,41 @@ func (c *goliteCtx) expr(e ast.Expr) string {
 		case isRandPerm(x):
 			return "(EPerm " + c.expr(x.Args[0]) + ")"
 		}
+		if path, name, ok := pkgCallee(x); ok && !x.Ellipsis.IsValid() {
+			// errors.New("constant")
+			if path == "errors" && name == "New" && len(x.Args) == 1 {
+				if tv, ok := info.Types[x.Args[0]]; ok && tv.Value != nil && tv.Value.Kind() == constant.String {
+					return "(EErr " + coqString(constant.StringVal(tv.Value)) + ")"
+				}
+			}
+			if n, ok := golitePrims[path+"."+name]; ok && n == len(x.Args) {
+				return "(EPrim " + coqString(path+"."+name) + " " + c.exprList(x.Args) + ")"
+			}
+			// opaque pure callee over places only
+			if goliteOpaque[path+"."+name] {
+				allPlaces := true
+				for _, a := range x.Args {
+					if _, ok := c.place(a); !ok {
+						allPlaces = false
+					}
+				}
+				if allPlaces {
+					return "(EOpaque " + coqString(nodeText(x)) + ")"
+				}
+			}
+		}
+		// method call on an interface-typed field of the receiver: external, recorded as an effect
+		if sel, ok := x.Fun.(*ast.SelectorExpr); ok && !x.Ellipsis.IsValid() {
+			if p, ok := c.heapPlace(sel.X); ok && p != c.recv {
+				if tv, ok := info.Types[sel.X]; ok && tv.Type != nil {
+					if _, isIface := tv.Type.Underlying().(*types.Interface); isIface {
+						if s := info.Selections[sel]; s != nil && s.Kind() == types.MethodVal {
+							return "(EExtern " + coqString(p+"."+sel.Sel.Name) + " " + c.exprList(x.Args) + ")"
+						}
+					}
+				}
+			}
+		}
 	case *ast.IndexExpr:
 		if isSliceType(x.X) {
 			return "(EIndex " + c.expr(x.X) + " " + c.expr(x.Index) + ")"
@@ -1183,6 +1518,15 @@ func (c *goliteCtx) expr(e ast.Expr) string {
 		case token.LOR:
 			return "(EOr " + c.expr(x.X) + " " + c.expr(x.Y) + ")"
 		case token.EQL, token.NEQ:
+			// p == nil / p != nil with p the receiver or a pointer field path of it
+			if isNilExpr(x.Y) && isPointerType(x.X) {
+				if p, ok := c.heapPlace(x.X); ok {
+					if x.Op == token.EQL {
+						return "(EIsNil " + coqString(p) + ")"
+					}
+					return "(ENot (EIsNil " + coqString(p) + "))"
+				}
+			}
 			bx, okx := basicInfo(x.X)
 			by, oky := basicInfo(x.Y)
 			const cmp = types.IsInteger | types.IsString | types.IsBoolean
@@ -1234,6 +1578,16 @@ func (c *goliteCtx) block(l []ast.Stmt) string {
 func (c *goliteCtx) stmt(s ast.Stmt) string {
 	switch x := s.(type) {
 	case *ast.AssignStmt:
+		if len(x.Lhs) == 1 && len(x.Rhs) == 1 && x.Tok == token.ADD_ASSIGN {
+			if p, ok := c.place(x.Lhs[0]); ok {
+				if w, ok := signedIntBits(x.Lhs[0]); ok {
+					if w2, ok := signedIntBits(x.Rhs[0]); ok && w2 == w {
+						return fmt.Sprintf("SAddTo %s %d %s", coqString(p), w, c.expr(x.Rhs[0]))
+					}
+				}
+			}
+			return glUnsS(s, "assignment form")
+		}
 		if len(x.Lhs) != 1 || len(x.Rhs) != 1 || (x.Tok != token.ASSIGN && x.Tok != token.DEFINE) {
 			return glUnsS(s, "assignment form")
 		}
@@ -1289,9 +1643,14 @@ func (c *goliteCtx) stmt(s ast.Stmt) string {
 		case 0:
 			return "SRet None"
 		case 1:
+			if call, ok := x.Results[0].(*ast.CallExpr); ok {
+				if full, args, ok := c.methodCall(call); ok {
+					return "SRetCallM " + coqString(full) + " " + args
+				}
+			}
 			return "SRet (Some " + c.expr(x.Results[0]) + ")"
 		}
-		return glUnsS(s, "multi-value return")
+		return "SRet (Some (ETuple " + c.exprList(x.Results) + "))"
 	case *ast.ExprStmt:
 		call, ok := x.X.(*ast.CallExpr)
 		if !ok {
@@ -1303,14 +1662,12 @@ func (c *goliteCtx) stmt(s ast.Stmt) string {
 		if m, ok := c.mutexCall(call, "Unlock"); ok {
 			return "SUnlock " + coqString(m)
 		}
-		// r.f() with f another translated method of the same receiver type, same receiver name, no arguments
-		if sel, ok := call.Fun.(*ast.SelectorExpr); ok && len(call.Args) == 0 {
-			if id, ok := sel.X.(*ast.Ident); ok && id.Name == c.recv {
-				full := c.recvType + "." + sel.Sel.Name
-				if fd, ok := c.set[full]; ok && goliteRecv(fd) == c.recv {
-					return "SCallM " + coqString(full)
-				}
-			}
+		// r.f(args) with f another translated method of the same receiver type, same receiver name
+		if full, args, ok := c.methodCall(call); ok {
+			return "SCallM " + coqString(full) + " " + args
+		}
+		if s, ok := c.localMethodCall(call); ok {
+			return s
 		}
 		return glUnsS(s, "call")
 	case *ast.DeferStmt:
@@ -1343,25 +1700,38 @@ func goliteFuncs(fm map[string]*ast.FuncDecl) string {
 			missing = append(missing, n)
 			continue
 		}
-		c := &goliteCtx{recv: goliteRecv(fd), recvType: strings.SplitN(n, ".", 2)[0], dupDefs: map[string]bool{}, set: set}
-		// names declared twice in one body (shadowing / block scoping) are outside the flat-frame semantics
-		seen := map[string]types.Object{}
-		ast.Inspect(fd.Body, func(nd ast.Node) bool {
+		c := &goliteCtx{recv: goliteRecv(fd), recvType: strings.SplitN(n, ".", 2)[0], dupDefs: map[string]bool{}, set: set,
+			names: map[types.Object]string{}}
+		// every local object gets its own name in the flat frame: the first "x" is "x", a second (shadowing / block
+		// scoped) one is "x'2", resolved through go/types' object identity, in source order
+		count := map[string]int{}
+		ast.Inspect(fd, func(nd ast.Node) bool {
 			if id, ok := nd.(*ast.Ident); ok {
 				if obj := info.Defs[id]; obj != nil && id.Name != "_" {
-					if prev, ok := seen[id.Name]; ok && prev != obj {
-						c.dupDefs[id.Name] = true
+					if _, isVar := obj.(*types.Var); isVar {
+						if _, done := c.names[obj]; !done {
+							count[id.Name]++
+							if count[id.Name] == 1 {
+								c.names[obj] = id.Name
+							} else {
+								c.names[obj] = fmt.Sprintf("%s'%d", id.Name, count[id.Name])
+							}
+						}
 					}
-					seen[id.Name] = obj
 				}
 			}
 			return true
 		})
 		body := c.block(fd.Body.List)
-		if c.recv == "" || (fd.Type.Params != nil && len(fd.Type.Params.List) > 0) {
+		params, paramsOk := goliteParams(fd)
+		if (c.recv == "" && fd.Recv != nil) || !paramsOk {
 			body = "[SUnsupported " + coqString("signature: "+nodeText(fd.Type)) + "]"
 		}
-		items = append(items, "  ("+coqString(n)+", mkGfun "+coqString(c.recv)+" "+body+")")
+		var ps []string
+		for _, p := range params {
+			ps = append(ps, coqString(p))
+		}
+		items = append(items, "  ("+coqString(n)+", mkGfun "+coqString(c.recv)+" ["+strings.Join(ps, "; ")+"] "+body+")")
 	}
 	return "\n(* GoLite: statement-level translation of the bodies (syntax Model/GenTypes.v, semantics Model/GoLite.v) *)\n" +
 		"Definition golite_funcs : list (string * gfun) := [\n" + strings.Join(items, ";\n") + "\n].\n"
